@@ -21,6 +21,18 @@ Theorem C20_ipv4_roundtrip : forall a b c d m,
 Proof. exact main_ipv4_roundtrip. Qed.
 Print Assumptions C20_ipv4_roundtrip.
 
+(* The exact language of NewIPv4FromString: "A.B.C.D/M" with five non-empty decimal fields of value
+   <= 255 (strconv.ParseUint(_, 10, 8): leading zeros tolerated; no sign, space, prefix or extra field),
+   and the result is exactly the numeric value of each field.  Nothing else is accepted. *)
+Theorem C20_ipv4_parse_exact : forall s a b c d m,
+  ipv4_of_string s = Ok (IPv4 a b c d m) <->
+  exists da db dc dd dm,
+    s = da ++ [46] ++ db ++ [46] ++ dc ++ [46] ++ dd ++ [47] ++ dm /\
+    parse_uint10 8 da = Some a /\ parse_uint10 8 db = Some b /\ parse_uint10 8 dc = Some c /\
+    parse_uint10 8 dd = Some d /\ parse_uint10 8 dm = Some m.
+Proof. exact ipv4_parse_exact. Qed.
+Print Assumptions C20_ipv4_parse_exact.
+
 (* ToUInt32 is the big-endian 32-bit value of the dotted quad. *)
 Theorem C20_ipv4_value : forall a b c d m,
   octet a -> octet b -> octet c -> octet d -> octet m ->
@@ -85,6 +97,16 @@ Theorem C20_ipv6_roundtrip : forall gs, groups_ok gs -> ipv6_of_string (ipv6_str
 Proof. exact ipv6_roundtrip. Qed.
 Print Assumptions C20_ipv6_roundtrip.
 
+(* The exact language of NewIPv6FromString: eight colon-separated non-empty hexadecimal fields of
+   value <= 0xffff (either letter case, leading zeros tolerated; no "::" compression, no zone, no
+   embedded IPv4), denoting exactly their numeric values.  Nothing else is accepted. *)
+Theorem C20_ipv6_parse_exact : forall s gs,
+  ipv6_of_string s = Ok gs <->
+  exists parts, length parts = 8%nat /\ s = join_with [58] parts /\
+                Forall2 (fun p x => parse_uint16 16 p = Some x) parts gs.
+Proof. exact ipv6_parse_exact. Qed.
+Print Assumptions C20_ipv6_parse_exact.
+
 (* ToUInt128 is the 128-bit value, high half first. *)
 Theorem C20_ipv6_value : forall gs, groups_ok gs ->
   fst (ipv6_to_u128 gs) * 2 ^ 64 + snd (ipv6_to_u128 gs) = ip6_value gs /\
@@ -119,6 +141,12 @@ Theorem C20_ports_alternation : forall a,
   (a < 65536 -> port_alt (print_dec a) = true) /\ (65536 <= a -> a < 100000 -> port_alt (print_dec a) = false).
 Proof. intros a. split; [exact (port_alt_print a)|exact (port_alt_print_over a)]. Qed.
 Print Assumptions C20_ports_alternation.
+
+(* Conversely the only accepted texts are the canonical ones: parse-then-print is the identity too
+   (leading zeros, signs and white space never yield a value). *)
+Theorem C20_ports_canonical : forall s a b, ports_of_string s = Ok (a, b) -> s = ports_string a b.
+Proof. exact ports_canonical. Qed.
+Print Assumptions C20_ports_canonical.
 
 Theorem C20_ports_wellformed : forall s a b, ports_of_string s = Ok (a, b) -> port a /\ port b.
 Proof. exact ports_of_string_ok. Qed.
